@@ -1,0 +1,20 @@
+//go:build verif
+
+package webtransport
+
+import (
+	"io"
+
+	"github.com/karagenc/socket.io-go/engine.io/parser"
+)
+
+// The unexported WebTransport framer, for the verification harness.
+
+func VerifSend(w io.Writer, packet *parser.Packet) error { return send(w, packet) }
+
+func VerifNextPacket(r io.Reader) (*parser.Packet, error) { return nextPacket(r) }
+
+// VerifNextPacketLimited reads a frame the way the server transport does (MaxBufferSize = limit).
+func VerifNextPacketLimited(r io.Reader, limit int64) (*parser.Packet, error) {
+	return nextPacket(newLimitedReader(r, limit))
+}
